@@ -34,6 +34,8 @@ C04M(e) == LET mo == Machine(e.ver, e.s) IN
    IF mo.cls # Classify(e.ver, e.s) THEN "SPEC-INCONSISTENT-machine-does-not-refine-grammar"
    ELSE IF Ok(e) THEN "ok"
    ELSE IF mo.cls = "ok" THEN "ok"                       \* C04's business
+   \* the published exception hierarchy: CVSS<n><Kind> < CVSS<n>Error < CVSSError < Exception
+   ELSE IF e.out.e.is_cvss_error /\ e.out.e.mro # <<e.out.e.exc, "CVSS" \o e.ver \o "Error", "CVSSError", "Exception", "BaseException", "object">> THEN "exception-hierarchy-of-" \o e.out.e.exc
    ELSE IF e.out.e.msg = (IF Len(mo.msg) > 300 THEN SubSeq(mo.msg, 1, 300) ELSE mo.msg) THEN "ok" ELSE "message-differs:" \o mo.msg
 
 \* ---- C07 (per event) -------------------------------------------------------------------------
